@@ -331,6 +331,158 @@ func scenarioDiscard() sched.Scenario {
 	}}
 }
 
+// scenarioDiscardRace: the fail-over of scenarioDiscard with a committer in flight. Tx 1 is committed and allowed; the old
+// primary's tx 2 is precommitted and its committer gives up; committer "mid" starts while tx 2 is still precommitted and
+// may be anywhere inside precommit() when the controller discards tx 2; committer "new" starts after the discard. Whatever
+// ids the two end up with, the acknowledged history must be the one every later read returns (chaining, BlRoot over the
+// Alh of the transactions that are really there).
+func scenarioDiscardRace() sched.Scenario {
+	return sched.Scenario{Name: "extallow-discard-race", MaxSteps: 1000000, Body: func(dir string) string {
+		opts := func() *store.Options {
+			return baseOpts().WithExternalCommitAllowance(true)
+		}
+		st, err := store.Open(dir, opts())
+		if err != nil {
+			sched.Report("open-failed", err.Error())
+			return "open-failed"
+		}
+		l := storeh.NewLedger()
+		commit := func(cctx context.Context, tag string) (*store.TxHeader, error) {
+			tx, err := st.NewWriteOnlyTx(cctx)
+			if err != nil {
+				return nil, err
+			}
+			tx.Set([]byte(tag), nil, []byte(tag+"-value"))
+			return tx.Commit(cctx)
+		}
+		ack := func(who string, h *store.TxHeader) {
+			rec, err := storeh.ReadRec(st, h.ID, true)
+			if err != nil {
+				sched.Report("acked-unreadable prog="+who, fmt.Sprintf("tx %d acknowledged but ReadTx fails: %v", h.ID, err))
+				return
+			}
+			if rec.Alh != h.Alh() {
+				sched.Report("acked-header-mismatch prog="+who, fmt.Sprintf("tx %d: the header returned by Commit (alh %x) differs from the stored one (alh %x)", h.ID, h.Alh(), rec.Alh))
+			}
+			sched.Shared(func() { l.Acked[h.ID] = rec })
+		}
+		waitPre := func(id uint64) {
+			for st.LastPrecommittedTxID() < id {
+				vsched.Pause("poll")
+			}
+		}
+		ctx := context.Background()
+		res := make([]string, 3)
+		// set-up: tx 1 committed, old tx 2 precommitted
+		done1 := false
+		vsched.Spawn(func() {
+			if h, err := commit(ctx, "one"); err != nil {
+				sched.Report("setup-failed", err.Error())
+			} else {
+				ack("tx1", h)
+			}
+			sched.Shared(func() { done1 = true })
+		})
+		waitPre(1)
+		if err := st.AllowCommitUpto(1); err != nil {
+			sched.Report("allow-failed", err.Error())
+		}
+		for !done1 {
+			vsched.Pause("poll")
+		}
+		actx, cancelOld := context.WithCancel(ctx)
+		doneOld := false
+		vsched.Spawn(func() {
+			if _, err := commit(actx, "old"); err == nil {
+				res[0] = "committed!"
+				sched.Report("unallowed-tx-committed", "a transaction beyond the commit allowance was reported committed")
+			} else {
+				res[0] = "cancelled"
+			}
+			sched.Shared(func() { doneOld = true })
+		})
+		waitPre(2)
+		vsched.Focus()
+		finished := 0
+		committer := func(slot int, tag string) {
+			if h, err := commit(ctx, tag); err != nil {
+				res[slot] = "err:" + err.Error()
+			} else {
+				ack(tag, h)
+				res[slot] = fmt.Sprintf("tx%d", h.ID)
+			}
+			sched.Shared(func() { finished++ })
+		}
+		// "mid" gives up (context cancelled by the controller) when its transaction was discarded together with tx 2:
+		// nothing will ever take its id
+		mctx, cancelMid := context.WithCancel(ctx)
+		vsched.Spawn(func() {
+			if h, err := commit(mctx, "mid"); err != nil {
+				res[1] = "err:" + errClass(err)
+			} else {
+				ack("mid", h)
+				res[1] = fmt.Sprintf("tx%d", h.ID)
+			}
+			sched.Shared(func() { finished++ })
+		})
+		vsched.Spawn(func() { // controller: the fail-over
+			cancelOld()
+			for !doneOld {
+				vsched.Pause("poll")
+			}
+			if _, err := st.DiscardPrecommittedTxsSince(2); err != nil {
+				sched.Report("discard-failed", err.Error())
+			}
+			vsched.Spawn(func() { committer(2, "new") })
+			idle := 0
+			for finished < 2 {
+				n := st.LastPrecommittedTxID()
+				if n > 1 && n > st.LastCommittedTxID() {
+					if err := st.AllowCommitUpto(n); err != nil {
+						sched.Report("allow-failed", err.Error())
+						return
+					}
+					idle = 0
+				} else if idle++; idle == 4 {
+					cancelMid()
+				}
+				vsched.Pause("poll")
+			}
+		})
+		vsched.Join()
+		if d := l.CheckHistory(st, 0); d != "" {
+			sched.Report("history-breach phase=end "+firstWords(d), d)
+		}
+		fp := storeh.Fingerprint(st)
+		if err := st.Close(); err != nil {
+			sched.Report("close-failed", err.Error())
+		}
+		st, err = store.Open(dir, opts())
+		if err != nil {
+			sched.Report("reopen-failed", err.Error())
+			return fmt.Sprint(res) + " reopen-failed"
+		}
+		if d := l.CheckHistory(st, 0); d != "" {
+			sched.Report("history-breach phase=reopen "+firstWords(d), d)
+		}
+		if fp2 := storeh.Fingerprint(st); fp2 != fp {
+			sched.Report("history-changed-by-reopen", fmt.Sprintf("before close: %s\nafter reopen: %s", fp, fp2))
+		}
+		st.Close()
+		return fmt.Sprint(res) + " " + fp
+	}}
+}
+
+func errClass(err error) string {
+	switch {
+	case errors.Is(err, context.Canceled):
+		return "cancelled"
+	case errors.Is(err, store.ErrAlreadyClosed):
+		return "closed"
+	}
+	return err.Error()
+}
+
 func firstWords(s string) string {
 	// stable class of a history breach: text up to the first digit
 	for i, r := range s {
@@ -384,10 +536,11 @@ func main() {
 	for _, v := range variants {
 		scs = append(scs, scenario(v))
 	}
-	scs = append(scs, scenarioDiscard())
+	scs = append(scs, scenarioDiscard(), scenarioDiscardRace())
 	var jobs []sched.Job
 	if c.Thorough() {
 		jobs = append(jobs, sched.Job{Scenario: "extallow-discard-reuse", Bound: 1, Budget: 2 * time.Minute})
+		jobs = append(jobs, sched.Job{Scenario: "extallow-discard-race", Bound: 2, Budget: 3 * time.Minute})
 		for _, v := range variants {
 			jobs = append(jobs, sched.Job{Scenario: v.name, Bound: 1, Budget: 2 * time.Minute})
 		}
@@ -397,8 +550,9 @@ func main() {
 		jobs = append(jobs, sched.Job{Scenario: "2commit", Bound: 1 << 20, Budget: 4 * time.Minute})
 	} else {
 		jobs = append(jobs, sched.Job{Scenario: "extallow-discard-reuse", Bound: 1, Budget: 12 * time.Second})
+		jobs = append(jobs, sched.Job{Scenario: "extallow-discard-race", Bound: 1, Budget: 12 * time.Second})
 		for _, v := range variants {
-			jobs = append(jobs, sched.Job{Scenario: v.name, Bound: 1, Budget: 14 * time.Second})
+			jobs = append(jobs, sched.Job{Scenario: v.name, Bound: 1, Budget: 13 * time.Second})
 		}
 	}
 	_ = errors.Is
